@@ -351,6 +351,17 @@ Section RrBridge.
                   (fun s e _ => g_step_ok s e) h (rrl_init cap)) as Q.
     rewrite <- l_run_is_run_res, D in Q. apply req_ok. apply Q. clear. induction h; constructor; auto.
   Qed.
+
+  (* ---- the constructor, translated (member initialisers + body): it builds the literal machine's initial state,
+     so the whole-history theorem starts from what the source constructs ---- *)
+  Lemma g_init_ok (cap : nat) : (g_init cap : rrl K V) = rrl_init cap.
+  Proof. reflexivity. Qed.
+  Theorem generated_rr_constructed_no_UB_on_any_history : forall cap (h : list (ev K V)),
+      1 <= cap -> Forall (fun e => rnd_in_range cap (e_rnd e)) h ->
+      exists l', run_res g_step (g_init cap) h = Ok (l', snd (run rr_step (rr_init cap) h)) /\
+                 rep l' (fst (run rr_step (rr_init cap) h)).
+  Proof. intros cap h Hc F. rewrite g_init_ok. apply generated_rr_no_UB_on_any_history; auto. Qed.
 End RrBridge.
 
 Print Assumptions generated_rr_no_UB_on_any_history.
+Print Assumptions generated_rr_constructed_no_UB_on_any_history.
